@@ -53,7 +53,7 @@ def main(run):
                 "in notes); per metric a history of type-appropriate (y_true, y_pred) calls issued through 1-3 loss wrappers and an "
                 "explainer SHARING one metric object in random interleaving; after every call the returned value must equal "
                 "sign * (fresh metric after that single pair) (NaN-aware, 1e-9) and metric.get() its value before the first call; a "
-                "recording subclass of the metric observes whether scalars ('output' entry) or the whole dict reached it; "
+                "confident predictions (exact 0/1, probabilities down to 1e-300); groups of 2-3 metrics sharing one confusion matrix (cm=) each used as a loss; recording subclass of the metric observes whether scalars ('output' entry) or the whole dict reached it; "
                 "evaluations = loss calls judged; non-trivial = distinct (metric, y_true, y_pred) with a non-zero loss")
     run.assumptions = ["the shared metric is touched only through the loss wrappers / explainers",
                        "fresh-metric semantics: a new instance of the same class with default arguments"]
